@@ -190,6 +190,17 @@ def c08_shapes(rnd):
                 for dest in (PROBE, 'dtn://other/svc'):
                     shapes.append(mk(dest=dest, rpt='dtn://rpt/r', ts=(5000 + k, k), flags=F['RCVREP'] | F['DLVREP'] | F['FWDREP'],
                                      pay=payload(rnd.choice([0, 3, 40]), k), crc=crc_p, pcrc=crc_b, ext=ext))
+    # endpoint IDs and blocks whose decoded form is not one-to-one with their encoding: node-only dtn EIDs
+    # (trailing slash), ipn EIDs, dtn:none, Bundle Age (a bare unsigned integer), creation time 0
+    for crc in (1, 2):
+        k += 1
+        shapes.append(mk(src='dtn://src/', dest='dtn://other/', rpt='dtn://rpt/', ts=(6000 + k, 0),
+                         flags=F['FWDREP'], pay=payload(5, k), crc=crc,
+                         ext=[prev_node(3, 'dtn://prev/', crc=crc), age(2, 500, crc=crc)]))
+        shapes.append(mk(src='ipn:5.1', dest='ipn:7.2', rpt='ipn:5.0', ts=(0, k), pay=payload(3, k), crc=crc,
+                         ext=[age(2, 70000, crc=crc), hop_count(3, 30, 1, crc=3 - crc)]))
+        shapes.append(mk(src='dtn://src/a', dest=PROBE, rpt='dtn:none', ts=(6000 + k, 1), flags=F['DLVREP'],
+                         pay=payload(9, k), crc=crc, ext=[prev_node(2, 'ipn:9.0', crc=crc)]))
     return shapes
 
 
@@ -211,6 +222,18 @@ def corruptions(octets, rnd, all_bits, nsample):
             mut[pos] ^= (1 << bit)
             muts.append((bytes(mut), 'bit %d of octet %d' % (bit, pos)))
         width = 16 if ctype == 1 else 32
+        # directed bursts (all within one octet): the block's array head becomes a "break" (the bundle then ends
+        # early), and the major type of an item changes while its argument stays (uint <-> simple value etc.)
+        directed = [(lo, octets[lo] ^ 0xFF)]
+        for pos in (range(lo, hi) if all_bits else rnd.sample(range(lo, hi), min(6, hi - lo))):
+            directed.append((pos, 0xE0))
+            directed.append((pos, 0x60))
+        for (pos, mask) in directed:
+            if mask == 0 or bin(mask).count('1') < 2:
+                continue
+            mut = bytearray(octets)
+            mut[pos] ^= mask
+            muts.append((bytes(mut), 'burst %s on octet %d' % (bin(mask), pos)))
         for _ in range(3 if not all_bits else 12):
             blen = rnd.randint(2, width)
             start = rnd.randint(lo * 8, hi * 8 - blen)
@@ -229,7 +252,8 @@ def c08_executions(tier, seed):
     shapes = c08_shapes(rnd)
     rx, tx = ROUTE_TABLES[0]
     for (si, octets) in enumerate(shapes):
-        all_bits = (si < 4) if tier == 'quick' else (si < 24)
+        # every single-bit flip of every protected block: quick = the six "aliasing" shapes and three of the grid
+        all_bits = (si >= 54 or si in (26, 40, 53)) if tier == 'quick' else True
         muts = corruptions(octets, rnd, all_bits, 12 if tier == 'quick' else 80)
         # clean run: output CRCs
         traces.append(run({'rx_routes': rx, 'tx_routes': tx}, [('recv', octets, {'note': 'clean'}), ('idle',)]))
@@ -238,7 +262,7 @@ def c08_executions(tier, seed):
         for k in range(0, len(muts), 6):
             steps = []
             for (mut, what) in muts[k:k + 6]:
-                steps.append(('recv', mut, {'note': what}))
+                steps.append(('recv', mut, {'note': what, 'corrupt': True}))
                 steps.append(('idle',))
             steps.append(('recv', octets, {'note': 'good copy'}))
             steps.append(('idle',))
